@@ -59,7 +59,7 @@ def destinations():
 
 def xml_texts():
     from hypothesis import strategies as st
-    return st.text(alphabet=st.one_of(st.sampled_from(list(u'<>&"\' \n\t]ab')), st.characters(codec='utf-8', exclude_categories=('Cc', 'Cs'))), max_size=20)
+    return st.text(alphabet=st.one_of(st.sampled_from(list(u'<>&"\' \n\t]ab')), st.characters(codec='utf-8', exclude_categories=('Cc', 'Cs'), exclude_characters=u'\ufffe\uffff')), max_size=20)     # U+FFFE / U+FFFF are not XML characters
 
 
 def _esc(s, attr=False):
